@@ -24,6 +24,9 @@ BUILT = {
  "C13": ("exploration", "runtime monitor: trace-specification checking ('no component / line evaluated after stop or skip fires', 'advance(n) lines have no effects', 'last() fires once on the final line') on LineEvent + EvalEvent hooks, plus the reference evaluator",
          "Systematic product of control form x position x firing line x scan window x blank layout (about 20k real runs) plus random two-control / onmatch programs; per line the pushes that happened, the components evaluated, matches and counters are compared with the documented behaviour. Known findings F9/F9b attributed by exact emulation.",
          "reference semantics from stop.md/advance.md/last.md; A1 corner (scan window ending on a blank record) not decided", "DESIGN.md#c13"),
+ "C16": ("exploration", "runtime monitor: snapshot hook at the entry of Print._decide_match + capture printers; expected text substituted from the generator's own chunk list",
+         "Templates are built from chunks in stratified arrangements and executed as print / print.onmatch / print.once; every printed entry is compared with the template whose references are replaced by the values the real run held at that instant, plus entry counts, onmatch/once behaviour and printer fan-out. Known finding F10b (adjacent references) attributed by exact emulation.",
+         "values 'current at that point' = snapshot of the real run's state at Print._decide_match entry", "DESIGN.md#c16"),
  "C14": ("exploration", "runtime monitor: LineEvent hook on real runs over the exhaustive qualifier x value-history table, compared with a decision function transcribed from docs/assignment.md",
          "Every one of the 256 qualifier subsets x 3-line value histories x rest-matches is executed by the real interpreter and observed per line (value of x, match). Exhaustive for the property quantifier.",
          "decision function (30 lines) transcribed from the property statement; admissible-vote sets where the doc table and priority list disagree (A2)", "DESIGN.md#c14"),
